@@ -47,7 +47,7 @@ SPEC = {
     "components_real": ["snowflake.connector client (auth, request building, Arrow result decoding, error raising)", "starlette app/routing/request/response", "fakesnow.server handlers", "fakesnow/*", "pyarrow IPC", "duckdb engine"],
     "components_stubbed": ["sockets + uvicorn + urllib3 connection pool (in-process ASGI transport)", "anyio thread pool (inline on the client thread)", "secrets.token_urlsafe (PRNG)", "thread scheduling (baton)"],
     "assumptions": ["one request is handled to completion on the client's thread (no anyio worker threads)"],
-    "mandatory_probes": {"any": ["transport_requests", "bad_token_request", "typed_rows", "error_statement", "isolated_login", "preempt_inside_op"]},
+    "mandatory_probes": {"any": ["transport_requests", "bad_token_request", "typed_rows", "error_statement", "isolated_login", "preempt_inside_op", "shared_table_select"]},
 }
 
 TYPED_COLS = [
@@ -103,12 +103,14 @@ def gen(rng: Any, prop: str, tier: str) -> dict[str, Any]:
         return uid[0]
 
     have_typed: set[str] = set()
+    shx = [False]
     own_tables: dict[str, list[str]] = {c["id"]: [] for c in clients}
     for _ in range(rng.randint(6, 30)):
         c = rng.choice(clients)
         cid = c["id"]
-        kind = rng.choices(["typed_create", "typed_select", "create", "insert", "select", "update", "delete", "error", "var", "ctx", "bad_token", "empty", "use"],
-                           [3 if cid not in have_typed else 0, 8 if cid in have_typed else 0, 3, 6, 5, 2, 2, 4, 2, 1, 2, 1, 1])[0]
+        shared_ok = c["kind"] == "shared" and not threaded
+        kind = rng.choices(["typed_create", "typed_select", "create", "insert", "select", "update", "delete", "error", "var", "ctx", "bad_token", "empty", "use", "shx_replace", "shx_select", "shx_episode"],
+                           [3 if cid not in have_typed else 0, 8 if cid in have_typed else 0, 3, 6, 5, 2, 2, 4, 2, 1, 2, 1, 1, 2 if shared_ok else 0, 4 if shared_ok and shx[0] else 0, 3 if shared_ok and sum(1 for x in clients if x["kind"] == "shared") >= 2 else 0])[0]
         q = None
         if kind == "typed_create":
             cols = ", ".join(f"{n} {t if n != 'N' or hz['number38_scale0'] else 'NUMBER(38,2)'}" for n, t in TYPED_COLS)
@@ -155,6 +157,27 @@ def gen(rng: Any, prop: str, tier: str) -> dict[str, Any]:
             ops.append({"s": cid, "k": "query", "sql": f"USE SCHEMA {rng.choice(['S1', 'S2'])}", "kind": "use"})
         elif kind == "empty":
             ops.append({"s": cid, "k": "query", "sql": "SELECT 1 AS X WHERE 1 = 0", "kind": "select"})
+        elif kind == "shx_replace":
+            # a table shared by all logins of the shared instance whose column type keeps changing:
+            # the byte-identical SELECT of another login must follow
+            ty, val = rng.choice([("INT", "7"), ("NUMBER(10,2)", "12.34"), ("VARCHAR(10)", "'txt'"), ("TIMESTAMP_NTZ", "'2024-02-29 12:34:56.789'"), ("FLOAT", "1.5"), ("BOOLEAN", "TRUE"), ("DATE", "'1969-12-31'")])
+            ops.append({"s": cid, "k": "query", "sql": f"CREATE OR REPLACE TABLE DB1.S1.SHX (A {ty})", "kind": "ddl"})
+            ops.append({"s": cid, "k": "query", "sql": f"INSERT INTO DB1.S1.SHX SELECT {val}", "kind": "insert1"})
+            shx[0] = True
+        elif kind == "shx_episode":
+            # login A reads the shared table, login B replaces it with another column type, A repeats the identical statement
+            other = rng.choice([x for x in clients if x["kind"] == "shared" and x["id"] != cid])["id"]
+            types = [("INT", "7"), ("NUMBER(10,2)", "12.34"), ("VARCHAR(10)", "'txt'"), ("TIMESTAMP_NTZ", "'2024-02-29 12:34:56.789'"), ("FLOAT", "1.5"), ("DATE", "'1969-12-31'")]
+            (t1, v1), (t2, v2) = rng.sample(types, 2)
+            ops.append({"s": other, "k": "query", "sql": f"CREATE OR REPLACE TABLE DB1.S1.SHX (A {t1})", "kind": "ddl"})
+            ops.append({"s": other, "k": "query", "sql": f"INSERT INTO DB1.S1.SHX SELECT {v1}", "kind": "insert1"})
+            ops.append({"s": cid, "k": "query", "sql": "SELECT A FROM DB1.S1.SHX", "kind": "shared_select"})
+            ops.append({"s": other, "k": "query", "sql": f"CREATE OR REPLACE TABLE DB1.S1.SHX (A {t2})", "kind": "ddl"})
+            ops.append({"s": other, "k": "query", "sql": f"INSERT INTO DB1.S1.SHX SELECT {v2}", "kind": "insert1"})
+            ops.append({"s": cid, "k": "query", "sql": "SELECT A FROM DB1.S1.SHX", "kind": "shared_select"})
+            shx[0] = True
+        elif kind == "shx_select":
+            ops.append({"s": cid, "k": "query", "sql": "SELECT A FROM DB1.S1.SHX", "kind": "shared_select"})
         elif kind == "bad_token":
             ops.append({"s": cid, "k": "bad_token", "how": rng.choice(["missing", "unknown", "garbage"])})
     return {
@@ -379,6 +402,7 @@ def run(case: dict[str, Any]) -> dict[str, Any]:
         probes = dict(w.counts)
         probes["transport_requests"] = sim.probes.get("transport_requests", 0)
         probes["preempt_inside_op"] = res["preemptions"]
+        probes["shared_table_select"] = sum(1 for o in case["ops"] if o.get("kind") == "shared_select")
         kinds = [(o["s"], o["k"], o.get("kind")) for o in case["ops"]]
         out = {
             "violations": [violation] if violation else [],
